@@ -49,7 +49,7 @@ ASSUMPTIONS = [
     "critical nodes (root, furcations, tips) have distinct (x, y, z, r) keys",
     "spacing > 0; finite coordinates",
 ]
-REQUIRED = ["branch_results_kept_across_calls", "resamplings_under_custom_names_and_subclasses", "tree_resamplings", "branches_checked", "sample_points_checked", "zero_length_branches",
+REQUIRED = ["branch_results_kept_across_calls", "branch_results_overwritten_then_asked_again", "resamplings_under_custom_names_and_subclasses", "tree_resamplings", "branches_checked", "sample_points_checked", "zero_length_branches",
             "two_node_branches_longer_than_spacing", "exact_multiple_spacings", "root_one_child",
             "non_soma_roots", "instance_reused", "branch_isometric_checked", "integer_coordinate_branches",
             "branch_linear_checked", "branch_smoother_checked", "tree_smoother_checked", "assembler_identity_checked",
@@ -502,6 +502,25 @@ def exec_branch(ctx, case):
         return ctx.violation("earlier-result-changed",
                              f"{type(tf_).__name__}: the branch returned for one branch changed when "
                              f"the same operator was applied to another branch", case)
+    # the result belongs to the caller: overwritten in place (centring, normalising), then the same
+    # branch is put through the same operator again
+    for v_ in first.attach.ndata.values():
+        if v_.flags.writeable and v_.dtype.kind == "f":
+            v_ -= np.float32(12.5)
+    redo = tf_(br)
+    raw = None
+    if op != "smooth" and hasattr(tf_, "resample"):
+        raw = tf_.resample(br.xyzr())
+        keep_raw = np.array(raw, copy=True)
+        raw[...] = -1.0
+        raw = tf_.resample(br.xyzr())
+    ctx.count("branch_results_overwritten_then_asked_again")
+    if not np.array_equal(redo.xyzr(), x_first, equal_nan=True) or (
+            raw is not None and not np.array_equal(raw, keep_raw, equal_nan=True)):
+        return ctx.violation("edit-leaks-to-later-result",
+                             f"{type(tf_).__name__}: after the caller overwrote the returned branch "
+                             f"in place, the same operator on the same branch returns another "
+                             f"result", case)
     if any(np.shares_memory(a_, b_) for a_ in first.attach.ndata.values()
            for b_ in second.attach.ndata.values()):
         return ctx.violation("results-share-storage",
